@@ -3,7 +3,7 @@
 From Coq Require Import ZArith List.
 From VB Require Import Arith.CompactDefs Pow.PowBase Pow.BtcDefs Pow.BtcSpec Pow.VbkDefs Pow.VbkFloat
      Pow.BestChainDefs Pow.AcceptDefs Pow.MedianProofs Pow.BtcProofs Pow.VbkProofs Pow.BestChainProofs
-     Pow.AcceptProofs Gen.ChainParams.
+     Pow.AcceptProofs Pow.WorkProofs Gen.ChainParams.
 Import ListNotations.
 Local Open Scope Z_scope.
 
@@ -93,6 +93,22 @@ Print Assumptions C15_btc_accept_iff_rules.
 Theorem C15_vbk_accept_iff_rules : forall coef p st hd, snd (vbk_accept coef p st hd) = COk <-> vbk_rules coef p st hd.
 Proof. exact vbk_accept_iff_rules. Qed.
 Print Assumptions C15_vbk_accept_iff_rules.
+
+(** work of one block: Bitcoin's floor(2^256 / (target + 1)) (BTC), the difficulty itself (VBK) *)
+Theorem C15_btc_block_proof_spec : forall bits t,
+  fromBits bits = (t, false, false) -> 1 <= t < two256 - 1 -> btc_block_proof bits = two256 / (t + 1).
+Proof. exact btc_block_proof_spec. Qed.
+Print Assumptions C15_btc_block_proof_spec.
+
+Theorem C15_vbk_block_proof_spec : forall bits t,
+  fromBits bits = (t, false, false) -> t <> 0 -> vbk_block_proof bits = t.
+Proof. exact vbk_block_proof_spec. Qed.
+Print Assumptions C15_vbk_block_proof_spec.
+
+(** the real VBK parameter sets (regenerated constants) have K >= 10: the divisor of the double step is positive *)
+Theorem C15_vbk_real_K : vbk_K vbk_main = 148500 /\ vbk_K vbk_test = 148500 /\ 10 <= vbk_K vbk_regtest.
+Proof. exact vbk_real_K. Qed.
+Print Assumptions C15_vbk_real_K.
 
 (** chain work = sum of the block proofs along the ancestor chain (mod 2^256), after any operation sequence *)
 Theorem C15_chainwork_sum_btc : forall p ops gid gtime gbits,
